@@ -362,6 +362,18 @@ func (i *interpreter) formatValue(fr *frame, sp spec, t types.Type, v value, dep
 					}
 					return i.callByName(fr, "unicode/utf8.AppendRune", []value(nil), r).([]value)
 				}
+				if !i.fewValues(s.t, i.cfg.MaxConcretise) && !i.fewValuesSolver(s.t) {
+					// text of a (widely ranging) symbolic number: not modelled.  It is
+					// rendered as a few unconstrained bytes, an over-approximation of its
+					// content; anything that depends on it is re-checked by native replay.
+					i.path.res.OpaqueFormats++
+					out := make([]value, 3)
+					for k := range out {
+						i.path.fresh++
+						out[k] = sym{i.newVar("$fmt"+strconv.Itoa(i.path.fresh), smt.BV(8)), types.Uint8}
+					}
+					return out
+				}
 				v = i.concretise(s, "fmt %"+string(sp.verb))
 			}
 		}
